@@ -46,6 +46,14 @@ fn is_numeric_looking(s: &str) -> bool {
 
 /// Returns true if `s` is a special YAML token or looks like a number/boolean,
 /// which means it should be quoted to be treated as a string.
+/// `---` or `...`, alone or followed by a blank: a document start / end marker for the parser.
+fn is_document_marker_like(s: &str) -> bool {
+    let Some(rest) = s.strip_prefix("---").or_else(|| s.strip_prefix("...")) else {
+        return false;
+    };
+    rest.chars().next().is_none_or(|c| c.is_ascii_whitespace())
+}
+
 fn is_ambiguous(s: &str) -> bool {
     if s.is_empty() {
         return true;
@@ -55,6 +63,12 @@ fn is_ambiguous(s: &str) -> bool {
         || s.eq_ignore_ascii_case("true")
         || s.eq_ignore_ascii_case("false")
     {
+        return true;
+    }
+
+    // `<<` reads back as a merge key; `---` / `...` (alone or followed by a blank) read back
+    // as document markers when they start a line. Quote them as strings.
+    if s == "<<" || is_document_marker_like(s) {
         return true;
     }
 
